@@ -18,7 +18,7 @@ def run_demo(tmp, demo):
     r = subprocess.run(["/venv/bin/python", demo], cwd=tmp, env=env, capture_output=True, text=True, timeout=300)
     import hashlib
     full = r.stdout + r.stderr
-    return r.returncode, full.strip().splitlines()[-3:], hashlib.sha256(full.encode()).hexdigest()[:16]
+    return r.returncode, full.strip().splitlines()[-3:], hashlib.sha256(full.encode()).hexdigest()[:16], ("DIFFERS" in full)
 
 
 def main():
@@ -44,8 +44,13 @@ def main():
         out["checks"] = {p: rc for p, (rc, _) in res.items()}
         out["findings"] = [l.strip()[:260] for p, (rc, o) in res.items() for l in o.splitlines()
                            if l.startswith(("  finding", "ANALYSIS-ERROR"))][:8]
-        refactor = "--refactor" in sys.argv
-        if refactor:
+        refactor = "--refactor" in sys.argv or "--outofscope" in sys.argv
+        if "--outofscope" in sys.argv:
+            # behaviour changes only outside the property: the demo's in-scope property check passes both ways, and it
+            # prints DIFFERS lines (out-of-scope differences) only with the patch
+            confirmed = out["demo_clean"][0] == 0 and out["demo_patched"][0] == 0 and not out["demo_clean"][3] \
+                and out["demo_patched"][3] and out["tests_patched"][0] == 0
+        elif refactor:
             # behaviour-preserving: the differential demo gives the same output with and without the patch. (Its
             # recorded expectations may predate a later fix: of the repo: then it fails identically on both.)
             same = out["demo_clean"][0] == out["demo_patched"][0] and out["demo_clean"][2] == out["demo_patched"][2]
@@ -70,7 +75,8 @@ def main():
                 except Exception:
                     meta = {"raw": open(mp).read()[:500]}
             if refactor:
-                meta.update({"kind": "refactor", "expected": "silent", "about_property": prop})
+                meta.update({"kind": "out-of-scope" if "--outofscope" in sys.argv else "refactor", "expected": "silent",
+                             "about_property": prop})
             meta.update({"breaks_property": prop, "origin": "independent sub-agent given only the property text",
                          "confirmed": {"demo_on_unchanged_tree": "PASS (exit 0)", "demo_with_patch": ("PASS (exit 0)" if refactor else f"FAIL (exit {out['demo_patched'][0]})"),
                                        "tests_with_patch": out["tests_patched"][1]},
